@@ -105,12 +105,19 @@ class Image:
         self.total = off
 
     def read(self, off, n):
+        import bisect
+        if not hasattr(self, "starts"):
+            self.starts = [p[0] for p in self.parts]
         out = bytearray()
-        for (o, b, ln) in self.parts:
-            if o + ln <= off or o >= off + n:
-                continue
-            lo = max(off, o); hi = min(off + n, o + ln)
-            out += (b[lo - o:hi - o] if b is not None else bytes(hi - lo))
+        i = max(0, bisect.bisect_right(self.starts, off) - 1)
+        while i < len(self.parts):
+            (o, b, ln) = self.parts[i]
+            if o >= off + n:
+                break
+            if o + ln > off:
+                lo = max(off, o); hi = min(off + n, o + ln)
+                out += (b[lo - o:hi - o] if b is not None else bytes(hi - lo))
+            i += 1
         return bytes(out) if len(out) == n else None
 
 
@@ -383,17 +390,21 @@ class Gen:
         return out
 
     # -- template 4: many pending references on one label, across sections
-    def burst_program(self, arch):
+    def burst_program(self, arch, n=None, switch=0.3, bind_sec=None, long_only=False):
         r = self.rng
-        n = r.choice([2, 5, 17, 64])
+        n = n or r.choice([2, 5, 17, 64])
         L = ["P " + arch, "L", "NS 16", "NS 4"]
         for i in range(n):
-            if r.random() < 0.3:
+            if r.random() < switch:
                 L.append("S %d" % r.randrange(3))
-            L.append(self.ref(arch, 0, near=False))
+            if long_only:     # forms that reach any distance inside the program, so the bind is accepted and walks the whole chain
+                L.append(r.choice(["R b 0", "R bl 0"]) if arch == "a64" else
+                         r.choice(["R jmp 0 2", "R call 0", "R jcc %d 0 2" % r.randrange(16)] + (["R lea 3 0 8", "R movmi 0 0 4 77"] if arch == "x64" else [])))
+            else:
+                L.append(self.ref(arch, 0, near=False))
             if r.random() < 0.4:
                 L += self.filler(r.choice([4, 8, 16, 132]), arch)
-        L.append("S %d" % r.randrange(3))
+        L.append("S %d" % (r.randrange(3) if bind_sec is None else bind_sec))
         if arch == "a64":
             L.append("A 1 4")
         L += ["B 0"]
@@ -453,6 +464,15 @@ class Gen:
                 out.append(self.burst_program(arch))
             for _ in range(int((120 if q else 2500) * w)):
                 out.append(self.resolve_early_program(arch))
+            # more than 1000 pending references on one label (fixup pool / chain length) and buffers grown across several 8 KiB..64 KiB steps
+            for _ in range(1 if q else 8):
+                big = self.burst_program(arch, n=r.choice([1100, 1300] if q else [1100, 1500, 2500]), switch=(0.0 if q else r.choice([0.0, 0.0, 0.002, 0.3])),
+                                         bind_sec=(0 if q else None), long_only=True)
+                k = r.randrange(3, len(big) - 3)
+                # growth across the 8 KiB.. steps: some explicit bytes and a larger zero run (explicit bytes are a single chunk the sparse model
+                # must measure on every traversal, so keep them moderate)
+                big[k:k] = ["D %d %d" % (r.choice([3000, 9000]), r.getrandbits(24)), "G %d" % r.choice([20000, 70000, 300000])]
+                out.append(big)
         r.shuffle(out)
         return out
 
@@ -475,6 +495,7 @@ class Tracker:
         self.deltas = []          # (sec, off, size, l, b, immediate?, value bytes)
         self.nflat = 0
         self.refused_binds = 0
+        self.a64_q = []           # (query for the structural a64 decoder of the model, address the monitor's own decoder gets, instruction)
         self.offs = None
         self.problems = []        # (key, what)
 
@@ -787,6 +808,9 @@ def monitor(prog, hout, tk, stats):
             else:
                 stats["fwd" if lab[1] > rf.site or not same else "bwd"] += 1
                 got = decode_field(rf.kind, w)
+                if tk.arch == "a64":
+                    pc = offs.get(rf.sec, 0) + rf.site
+                    tk.a64_q.append(("A64 %d %d" % (pc, w), ((pc & ~0xFFF) + got if rf.kind == "adrp" else pc + got) & M64, rf.line))
                 if got != dsp or (w & ~mask) != rf.w0:
                     probs.append(("C03/wrong-field/%s/%s" % (tk.arch, rf.kind),
                                   "%s (section %d, site %d): word %#x denotes displacement %d, label %d is at %d:%d, the reference needs %d%s"
@@ -983,7 +1007,17 @@ def check_programs(ck, impl, model, programs):
                     res["diffs"].append("op %r: impl %r, model %r" % (line[:120], want, got))
                     if len(res["diffs"]) > 4:
                         break
+        res["tk"] = tk
         results.append(res)
+    # architectural meaning of every exactly resolved AArch64 word through the model's structural decoder (Labels.A64Dec)
+    qblocks = [[q[0] for q in r["tk"].a64_q] if r.get("tk") else [] for r in results]
+    if any(qblocks):
+        qouts = run_sharded(model, [b or ["P"] for b in qblocks])
+        for r, blk, outs in zip(results, qblocks, qouts):
+            for (q, want, what), got in zip(r["tk"].a64_q if blk else [], outs or []):
+                stats["a64_decoded"] = stats.get("a64_decoded", 0) + 1
+                if got != str(want):
+                    r["diffs"].append("%s: the structural a64 decoder reads the word as designating %s, the monitor's decoder %#x (%s)" % (what, got, want, q))
     return results, stats
 
 
